@@ -10,6 +10,7 @@
 WORLDS = {
     "exec": {},
     "mod": {},
+    "merge": {},
     "ring": {"extra_pkgs": ["simkv"], "simos": ["ring/tokens.go", "ring/lifecycler.go", "ring/basic_lifecycler_delegates.go"]},
     "cache": {},
     "cas": {"requires": ["github.com/anishathalye/porcupine@v1.3.0"],
@@ -144,6 +145,17 @@ PROPS["C02"] = {
     "level_text": "seeded exploration of reachable ring states; exact enumeration of minimal subset pairs per state; sampling of states, not proof",
     "level_note": "trusted: simulator engine, subset enumeration; the success criteria of the executors are C10 / C11",
     "design_ref": "DESIGN.md section 5 C02",
+}
+
+PROPS["C03"] = {
+    "world": "merge", "level": "exploration", "quick_s": 12, "thorough_s": 360,
+    "rule": "one evaluation = one set of updates produced under the statement's proviso (2..3 instances or 1..3 partitions + 0..2 owners, 1..4 versions each, removals as tombstones in the same second or later, lock and state timestamps independent) delivered to 2..4 bare replicas by a simulated network: any order, repetition, grouping (updates merged into one another first), full states of other replicas, and the changes reported by earlier merges; after every single merge: 'no change => content untouched', 'pre + reported change == post', idempotence; at the end: all replicas equal each other and the newest-timestamp-wins reference, and a replica fed only reported changes equals the one fed full updates; non-trivial = at least 3 updates and two replicas that received the originals in different orders; distinct = distinct delivery trace hash among non-trivial runs. The GOSSIP world (C06) cross-checks convergence of the same merges through the real KV",
+    "real": ["(*ring.Desc).Merge / mergeWithTime, MergeContent, Clone", "(*ring.PartitionRingDesc).Merge"],
+    "stub": ["writers (update generator obeying the proviso)", "network (delivery order / grouping / multiplicity)", "no KV, no goroutines in this world"],
+    "assumptions": _ASSUME_COMMON + ["the statement's proviso is built into the generator: one writer per entry, a new timestamp for every content change, disjoint token pools (no token collisions), tombstone timestamp >= last content", "localCAS=true merges are writers' local steps and not part of the delivered traffic"],
+    "level_text": "seeded exploration of delivery orders, groupings, multiplicities and delta-only feeds over a small universe of updates; per-merge and end-state oracles; sampling, not proof",
+    "level_note": "trusted: simulator engine (choice vector, shrinking), the 10-line newest-timestamp-wins reference",
+    "design_ref": "DESIGN.md section 5 C03",
 }
 
 HOOK_COMMITS = []
